@@ -1116,6 +1116,23 @@ def msg_trace(ev: dict, src: str) -> dict:
     return {"cfg": {"kind": "msg"}, "src": src, "events": [ev]}
 
 
+class Acc:
+    """Collects traces and hands them to TLC in large batches (JVM start-up dominates small ones)."""
+
+    def __init__(self, ctx: Ctx, label: str, limit: int = 20000) -> None:
+        self.ctx, self.label, self.limit, self.buf = ctx, label, limit, []
+
+    def add(self, t: dict) -> None:
+        self.buf.append(t)
+        if len(self.buf) >= self.limit:
+            self.flush()
+
+    def flush(self) -> None:
+        if self.buf:
+            judge(self.ctx, self.buf, self.label)
+            self.buf = []
+
+
 def run_part_a(ctx: Ctx, kit: Kit, scen: List[Scenario]) -> None:
     # ---- 1. bounded model of the rule
     res = run_tlc("HttpWriterSerMC", ser_cfg(3), workers=16, timeout=ctx.pick(600, 1800), deadlock=False)
@@ -1134,22 +1151,20 @@ def run_part_a(ctx: Ctx, kit: Kit, scen: List[Scenario]) -> None:
             by_pos.setdefault(sc.pos, []).append(sc)
     # the abstract position "target" is bound to the two URL scenarios (no refinement table: yarl decides)
     by_pos["target"] = [s for s in scen if s.special == "target"]
-    traces: List[dict] = []
+    acc = Acc(ctx, "serialisation")
     nrun = 0
+    first: List[dict] = []
     for pos, cls in sorted(pairs):
         for sc in by_pos.get(pos, []):
             if sc.whole and not cls:
                 continue
             variants = G.concretise(cls, ctx.rng, ctx.pick(0, 2))
             for k, cps in enumerate(variants):
-                traces.append(ser_trace(sc.event(kit, cps, tbl=(k == 0)), "tlc-cover"))
+                t = ser_trace(sc.event(kit, cps, tbl=(k == 0)), "tlc-cover")
+                if nrun % 997 == 5:
+                    ctx.sample(sample_of(t), cap=2)
+                acc.add(t)
                 nrun += 1
-        if len(traces) >= 10000:
-            judge(ctx, traces, "class-strings")
-            traces = []
-    if traces:
-        ctx.sample(sample_of(traces[len(traces) // 2]))
-    judge(ctx, traces, "class-strings")
     ctx.log(f"class strings: {len(pairs)} (position, string) pairs from TLC, {nrun} executions")
     ctx.extra["class_string_pairs"] = len(pairs)
     # ---- 3. every code point in every scenario.  Alone below `single_below`; the rest in blocks of
@@ -1160,7 +1175,6 @@ def run_part_a(ctx: Ctx, kit: Kit, scen: List[Scenario]) -> None:
     extra = [c for c in G.single_code_points(ctx.quick, ctx.rng, sample=ctx.pick(24, 2048)) if c >= 0x800]
     full = [(0x800, 0xD7FF), (0xD800, 0xDFFF), (0xE000, 0x10FFFF)]
     bmp = [(0x800, 0xD7FF), (0xD800, 0xDFFF), (0xE000, 0xFFFF)]
-    traces = []
     counts: Dict[str, Dict[str, int]] = {}
     nblocks = 0
     for sc in scen:
@@ -1168,7 +1182,7 @@ def run_part_a(ctx: Ctx, kit: Kit, scen: List[Scenario]) -> None:
         for cp in list(range(single_below)) + extra:
             ev = sc.event(kit, [cp], tbl=False)
             c[ev["out"]] += 1
-            traces.append(ser_trace(ev, "sweep"))
+            acc.add(ser_trace(ev, "sweep"))
         if sc.special == "boundary" and not ctx.quick:
             continue                         # boundaries are ASCII-only and at most 70 characters
         ranges = ctx.pick([(single_below, 0x7FF)], full if sc.name in PRIMARY else bmp)
@@ -1185,25 +1199,17 @@ def run_part_a(ctx: Ctx, kit: Kit, scen: List[Scenario]) -> None:
                             continue          # nothing written: the halves decide
                     else:
                         c[ev["out"]] += len(b)
-                    traces.append(ser_trace(ev, "blocks"))
+                    acc.add(ser_trace(ev, "blocks"))
                     nblocks += 1
-            if len(traces) >= 30000:
-                judge(ctx, traces, "sweep")
-                traces = []
-    judge(ctx, traces, "sweep")
     ctx.log(f"code points: {single_below}+{len(extra)} alone, {nblocks} block executions, in each of {len(scen)} scenarios")
     ctx.extra["code_point_outcomes_per_scenario"] = counts
     # ---- 4. random hostile strings
-    traces = []
     for cps in G.random_strings(ctx.rng, ctx.pick(60, 1500)):
         for sc in scen:
             if sc.whole and not cps:
                 continue
-            traces.append(ser_trace(sc.event(kit, cps, tbl=False), "random"))
-        if len(traces) >= 10000:
-            judge(ctx, traces, "random-strings")
-            traces = []
-    judge(ctx, traces, "random-strings")
+            acc.add(ser_trace(sc.event(kit, cps, tbl=False), "random"))
+    acc.flush()
 
 
 def run_part_b(ctx: Ctx, kit: Kit) -> None:
@@ -1234,20 +1240,20 @@ def run_part_b(ctx: Ctx, kit: Kit) -> None:
     for beh in sims:
         mode, calls = behaviour_calls(beh, sms)
         seqs.append((mode, calls, "tlc-sim"))
-    for _ in range(ctx.pick(1500, 15000)):
+    for _ in range(ctx.pick(800, 15000)):
         mode, calls = random_calls(ctx.rng)
         seqs.append((mode, calls, "random"))
     ctx.log(f"call sequences: {ncover} transition-cover paths, {len(sims)} simulated, {len(seqs) - ncover - len(sims)} random")
     traces = [replay_ops(kit, mode, calls, src) for mode, calls, src in seqs]
     ctx.sample(sample_of(traces[min(len(traces) - 1, 17)]))
-    for k in range(0, len(traces), 4000):
-        judge(ctx, traces[k:k + 4000], "stream-writer-ops")
+    for k in range(0, len(traces), 20000):
+        judge(ctx, traces[k:k + 20000], "stream-writer-ops")
     # python-side refinement note: a call that awaits drain() blocks while the transport is paused
     # ---- 3. complete messages through the public API, every payload class
     recipes = fixed_recipes()
-    stride = ctx.pick(9, 2)
+    stride = ctx.pick(6, 2)
     for k, (mode, calls, _src) in enumerate(seqs):
-        if k % stride == 0 or k < ncover:
+        if k % stride == 0:
             if any(op in ("write", "write_eof") for op, _n, _b in calls):
                 recipes += recipes_from_calls(mode, calls, ctx.rng, k)
     traces = []
@@ -1268,8 +1274,8 @@ def run_part_b(ctx: Ctx, kit: Kit) -> None:
     ctx.log(f"complete messages: {len(traces)} (payload size vs written: "
             + ", ".join(f"{k}:{v['size_differs']}/{v['runs']} differ" for k, v in sorted(sizes.items())) + ")")
     ctx.sample(sample_of(traces[3]))
-    for k in range(0, len(traces), 4000):
-        judge(ctx, traces[k:k + 4000], "messages")
+    for k in range(0, len(traces), 20000):
+        judge(ctx, traces[k:k + 20000], "messages")
 
 
 def run(ctx: Ctx) -> None:
